@@ -41,6 +41,7 @@ func c09Funcs() []*ast.Node {
 		ast.Func("setm", []string{"o", "k", "v"}, ast.Block(ast.ExprS(ast.Set(ast.Idx(ast.Id("o"), ast.Id("k")), ast.Id("v"))))),
 		ast.Func("bump", []string{"x"}, ast.Block(ast.ExprS(ast.Set(ast.Id("x"), ast.Bin("+", ast.Id("x"), ast.Num("1")))), ast.Return(ast.Id("x")))),
 		ast.Func("pushv", []string{"a", "v"}, ast.Block(ast.ExprS(ast.Method(ast.Id("a"), "push", ast.Id("v"))))),
+		ast.Func("getm", []string{"o", "k"}, ast.Block(ast.Return(ast.Idx(ast.Id("o"), ast.Id("k"))))),
 	}
 }
 
@@ -322,7 +323,7 @@ func (g *c09Gen) action() bool {
 	var stmts []*ast.Node
 	label := ""
 	g.cur = &st
-	switch k := g.n(0, 23, "action"); {
+	switch k := g.n(0, 24, "action"); {
 	case k <= 1:
 		v := c09Vars[g.n(0, len(c09Vars)-1, "v")]
 		stmts = append(stmts, ast.ExprS(ast.Set(ast.Id(v), g.value(st.Globals))))
@@ -438,6 +439,20 @@ func (g *c09Gen) action() bool {
 			stmts = append(stmts, ast.Print(ast.Str("R"), g.reader(st)))
 			label = "read-only"
 		}
+	case k == 24:
+		// a store below the value returned by a function: the result of a call is a
+		// value, not a place in the container the function read it from
+		base := rapid.SampledFrom([]*ast.Node{ast.Id("v3"), ast.Id("v2"), ast.Dollar()}).Draw(g.t, "retbase").Clone()
+		key := rapid.SampledFrom([]*ast.Node{ast.Str("nokey"), ast.Str("a"), ast.Num("9"), ast.Num("0"), ast.Str("b")}).Draw(g.t, "retkey").Clone()
+		call := ast.Call(ast.Id("getm"), base, key)
+		var tgt *ast.Node
+		if g.b("retidx") {
+			tgt = ast.Idx(call, ast.Num("0"))
+		} else {
+			tgt = ast.Mem(call, "x")
+		}
+		stmts = append(stmts, ast.ExprS(ast.Set(ast.Id("tmp"), ast.Num("0"))), ast.ExprS(ast.Set(tgt, g.scalar())))
+		label = "store-below-call-result"
 	case k == 23:
 		// chained (right-associative) assignments, plain and compound
 		a1 := c09Vars[g.n(0, 1, "ch1")]
